@@ -7,6 +7,7 @@ import Proofs.FrameTeam
 import Proofs.FrameTeamBack
 import Proofs.FrameAlt
 import Proofs.Ordered
+import Proofs.TeamOrdered
 import Proofs.WFCheck
 /-!
 C06 — reported start and end frame exactly the booked work.
@@ -160,5 +161,12 @@ theorem start_le_end_with_alternative (e : Env) (wf : WF e) (t r1 r2 : Nat) (hel
     (hs : ((runScenario e).tst t).scheduled = true) :
     ∃ s v, ((runScenario e).tst t).start = some s ∧ ((runScenario e).tst t).stop = some v ∧ s ≤ v :=
   (runScenario_ordered e wf).2 t r1 r2 hel (runScenario_scheduled_done e t ⟨hel.leaf, hel.effort, hel.nomile⟩ hs)
+
+/-- the same for a team whose members share one efficiency (`Proofs/TeamOrdered`: `bookResources_team_usedBefore` — after
+    levelling and the offset reservation every member's slot holds at least the start offset before the team's own seconds) -/
+theorem start_le_end_team (e : Env) (wf : WF e) (t : Nat) (sel : List Nat) (η : Rat) (hel : TeamElig e t sel η)
+    (hs : ((runScenario e).tst t).scheduled = true) :
+    ∃ s v, ((runScenario e).tst t).start = some s ∧ ((runScenario e).tst t).stop = some v ∧ s ≤ v :=
+  runScenario_orderedT e wf t sel η hel (runScenario_scheduled_done e t ⟨hel.leaf, hel.effort, hel.nomile⟩ hs)
 
 end SP.C06
